@@ -135,11 +135,11 @@ func (s *qrecv) SetReadDeadline(time.Time) error   { return nil }
 // outgoing and one incoming unidirectional stream, and a lossy datagram lane in each direction (a datagram is dropped when 4096 are
 // waiting; nothing is reordered).
 type qconn struct {
-	out, in      *pipe
-	ctx          context.Context
-	cancel       context.CancelFunc
-	accepted     chan struct{}
-	dgOut, dgIn  chan []byte
+	out, in     *pipe
+	ctx         context.Context
+	cancel      context.CancelFunc
+	accepted    chan struct{}
+	dgOut, dgIn chan []byte
 }
 
 var _ quicgo.Connection = (*qconn)(nil)
